@@ -417,6 +417,38 @@ theorem C14_pure_recPerm (permute : List Nat → List Nat → M (List Nat × Lis
   · exact ⟨Nat.le_refl _, fun y hy => ⟨hv y hy, Or.inl hy⟩⟩
   · exact ⟨hle, fun y hy => ⟨(hall y hy).1, Or.inr (hall y hy).2.2⟩⟩
 
+/-! ### Mutators with a `where` filter: the guarantees hold for every filter -/
+
+theorem C14_primitive_mutUniformW (w : Where) (fuel : Nat) (g : GSpec) : ClosedAligned g (mutUniformW w fuel g) :=
+  fun pop st out st' hp h => mutUniformW_aligned w fuel g pop st out st' hp h
+
+theorem C14_primitive_mutUniformW_closed (w : Where) (fuel : Nat) (g : GSpec) : Closed g (mutUniformW w fuel g) :=
+  fun pop st out st' hp h y hy => ((mutUniformW_spec w fuel g pop st out st' hp h).2 y hy).1
+
+theorem C14_primitive_mutSwapW (w : Where) (g : GSpec) : ClosedAligned g (mutSwapW w g) :=
+  fun pop st out st' hp h => mutSwapW_aligned w g pop st out st' hp h
+
+theorem C14_primitive_mutSwapW_closed (w : Where) (g : GSpec) : Closed g (mutSwapW w g) :=
+  fun pop st out st' hp h y hy => ((mutSwapW_spec w g pop st out st' hp h).2 y hy).1
+
+theorem C14_pure_mutUniformW (w : Where) (fuel : Nat) (g : GSpec) : Pure g (mutUniformW w fuel g) := by
+  intro pop st out st' hv hr
+  obtain ⟨h1, h2⟩ := mutUniformW_spec w fuel g pop st out st' hv hr
+  exact ⟨h1, fun y hy => ⟨(h2 y hy).1, Or.inr (h2 y hy).2⟩⟩
+
+theorem C14_pure_mutSwapW (w : Where) (g : GSpec) : Pure g (mutSwapW w g) := by
+  intro pop st out st' hv hr
+  obtain ⟨h1, h2⟩ := mutSwapW_spec w g pop st out st' hv hr
+  exact ⟨h1, fun y hy => ⟨(h2 y hy).1, Or.inr (h2 y hy).2⟩⟩
+
+/-- a filter that admits subchoices only: the multi-choice node itself is not counted (2 nodes instead
+of 3), the run redraws subchoice 1 under the distinct constraint. -/
+example : ∃ out st', mutUniformW (fun n => n.kind == 3) 3 f21Spec
+    [{ uid := 0, dna := f21Dna, fit := some 1 }]
+    { oracle := [.idx .choice 2 1, .idx .choice 1 0], nextUid := 1 } = .ok (out, st') ∧
+    out.map (fun y => valid f21Spec y.dna) = [true] :=
+  ⟨_, _, rfl, rfl⟩
+
 /-- Determinism: an operation is a function of its inputs, its oracle stream and the uid counter
 (seeded operators: of seed and inputs) — in the model this is functionality of `eval`. -/
 theorem C14_det (e : OpExpr) (pop : Pop) (st₁ st₂ : St) (h : st₁.oracle = st₂.oracle)
